@@ -41,8 +41,14 @@ func famRedef(r *rng) []string {
 	switch r.intn(7) {
 	case 0, 1:
 		res = append(res, defG(c2))
-	case 2: // redefined by a function, itself called twice with the same arguments
-		res = append(res, fmt.Sprintf("redef = func(){ g = func(x){x+%d}; 0 }", c2), "redef()")
+	case 2: // redefined by a function, itself called twice with the same arguments; also AFTER the function has read g, so that
+		// its own binding of g is a reference to the outer one (seeded change C04-8: the invalidation looked at the reference)
+		res = append(res, pickS(r,
+			fmt.Sprintf("redef = func(){ g = func(x){x+%d}; 0 }", c2),
+			fmt.Sprintf("redef = func(){ old = g; g = func(x){x+%d}; 0 }", c2),
+			fmt.Sprintf("redef = func(){ t = g(1); g = func(x){x+%d}; t - t }", c2),
+			fmt.Sprintf("redef = func(){ if g != nil { g = func(x){x+%d} }; 0 }", c2),
+			fmt.Sprintf("redef = func(){ h = () => { q = g; g = func(x){x+%d}; 0 }; h() }", c2)), "redef()")
 	case 3: // deleted and re-created
 		res = append(res, "del(g)", defG(c2))
 	case 4: // deleted: the caller now fails
@@ -64,9 +70,17 @@ func famRedef(r *rng) []string {
 			"mk = func(n) { [() => { n = n + 1; n }] }",
 			"mk = func(n) { {\"next\": () => { n = n + 1; n }} }",
 			"func mk(n) { c = 0; func() { c = c + n; c } }",
-			"mk = func(n) { g2 = () => n * 2; g2 }")
+			"mk = func(n) { g2 = () => n * 2; g2 }",
+			// inside LARGE containers (seeded change C04-7: the walk that looks for a function in the result skipped them)
+			"mk = func(n) { [0, 1, 2, 3, 4, 5, 6, 7, () => { n = n + 1; n }] }",
+			"mk = func(n) { {\"a\": 1, \"b\": 2, \"c\": 3, \"d\": 4, \"e\": 5, \"next\": () => { n = n + 1; n }} }",
+			"mk = func(n) { [[0, 1, 2, 3, 4, 5, 6, 7, [() => { n = n + 1; n }]]] }")
 		get := func(v string) string {
 			switch {
+			case strings.Contains(mk, "[[0"):
+				return v + "[0][8][0]()"
+			case strings.Contains(mk, "[0, 1"):
+				return v + "[8]()"
 			case strings.Contains(mk, "[()"):
 				return v + "[0]()"
 			case strings.Contains(mk, "next"):
